@@ -68,7 +68,7 @@ impl Space for Lists {
             }
             // the same list with the members of every entry sent in the other order
             let rlist = reverse_maps(&list);
-            if rlist != list {
+            if rlist != list && accepts_reordered_entries() {
                 let wire = if c.path.is_empty() { rlist.clone() } else { treewalk::replaced(&c.wire, &c.path, rlist.clone()) };
                 let mut v = compare(P, &c.target, &wire);
                 if !v.ok {
@@ -88,7 +88,7 @@ impl Space for Lists {
             }
             let rlist = reverse_maps(&list);
             let rwire = if c.path.is_empty() { rlist.clone() } else { treewalk::replaced(&c.wire, &c.path, rlist.clone()) };
-            if !compare(P, &c.target, &rwire).ok {
+            if accepts_reordered_entries() && !compare(P, &c.target, &rwire).ok {
                 return case_json(&c.target, &rwire, json!({"context": c.label, "list": format!("{:?}", rlist), "entry members": "reversed"}));
             }
         }
@@ -116,6 +116,9 @@ fn contexts(member: &str, alone: Option<&'static str>) -> Vec<Ctxt> {
                     if let Some(pos) = m.iter().position(|(k2, _)| k2 == k) {
                         let e = m.remove(pos);
                         m.insert(0, e);
+                        if !accepts_reordered(&s.target, &V::M(m.clone())) {
+                            continue; // a decoder that insists on canonical order: nothing to assert
+                        }
                         out.push(Ctxt { label: format!("{}{} (sent first)", s.label, member), target: s.target.clone(), wire: V::M(m), path: site.path.clone() });
                     }
                 }
@@ -226,13 +229,17 @@ pub fn run(ctx: &'static Ctx) {
     }
     {
         let rev: Vec<(String, V)> = long.iter().map(|(w, l)| (format!("{} (entry members reversed)", w), reverse_maps(l))).collect();
-        long.extend(rev);
+        if accepts_reordered_entries() {
+            long.extend(rev);
+        }
         // unknown entries carrying extra members, in both member orders
         for extra in [V::U(0), V::t("x"), V::A(vec![V::U(1), V::U(2)]), V::M(vec![(V::t("a"), V::U(1))])] {
             let e = |alg: i64, ty: &str| V::M(vec![(V::t("alg"), V::int(alg)), (V::t("type"), V::t(ty)), (V::t("zzextra"), extra.clone())]);
             let l = V::A(vec![e(-8, "private-key"), e(-7, PUBLIC_KEY), e(-257, PUBLIC_KEY), e(-8, PUBLIC_KEY)]);
             long.push((format!("entries with an extra member {:?}", extra), l.clone()));
-            long.push((format!("entries with an extra member {:?} (entry members reversed)", extra), reverse_maps(&l)));
+            if accepts_reordered_entries() {
+                long.push((format!("entries with an extra member {:?} (entry members reversed)", extra), reverse_maps(&l)));
+            }
         }
     }
     let (lr, pr) = (&long, &pctx);
